@@ -3,14 +3,9 @@ package interp
 // Prototype: symbolic scalars + decision-prefix path exploration + z3 pipe.
 
 import (
-	"bufio"
 	"fmt"
 	"go/token"
 	"go/types"
-	"io"
-	"os/exec"
-	"strings"
-	"time"
 )
 
 // sym is a symbolic scalar: an SMT-LIB term of sort Bool (w==0) or (_ BitVec w).
@@ -23,197 +18,6 @@ type sym struct {
 func (s sym) String() string { return s.t }
 
 type symstr []value // string with concrete length, bytes concrete(uint8) or sym
-
-// ---------------------------------------------------------------- solver
-
-type solver struct {
-	cmd     *exec.Cmd
-	in      io.WriteCloser
-	bw      *bufio.Writer
-	out     *bufio.Reader
-	queries int
-	dur     time.Duration
-	decls   []string
-	log     io.Writer
-}
-
-func newSolver() *solver {
-	cmd := exec.Command("z3", "-in")
-	in, _ := cmd.StdinPipe()
-	outp, _ := cmd.StdoutPipe()
-	if err := cmd.Start(); err != nil {
-		panic(err)
-	}
-	s := &solver{cmd: cmd, in: in, out: bufio.NewReader(outp)}
-	s.bw = bufio.NewWriterSize(in, 1<<16)
-	s.send("(set-option :produce-models true)")
-	return s
-}
-
-func (s *solver) send(l string) {
-	if s.log != nil {
-		fmt.Fprintln(s.log, l)
-	}
-	s.bw.WriteString(l)
-	s.bw.WriteByte('\n')
-}
-
-func (s *solver) check() string {
-	t0 := time.Now()
-	s.send("(check-sat)")
-	s.bw.Flush()
-	line, err := s.out.ReadString('\n')
-	if err != nil {
-		panic("solver died: " + err.Error())
-	}
-	s.queries++
-	s.dur += time.Since(t0)
-	line = strings.TrimSpace(line)
-	if strings.HasPrefix(line, "(error") {
-		panic("solver error: " + line)
-	}
-	return line
-}
-
-func (s *solver) getValue(term string) string {
-	s.send("(get-value (" + term + "))")
-	s.bw.Flush()
-	// read balanced s-expr
-	depth := 0
-	var sb strings.Builder
-	for {
-		r, _, err := s.out.ReadRune()
-		if err != nil {
-			panic(err)
-		}
-		sb.WriteRune(r)
-		if r == '(' {
-			depth++
-		} else if r == ')' {
-			depth--
-			if depth == 0 {
-				break
-			}
-		}
-	}
-	s.out.ReadString('\n')
-	return strings.Join(strings.Fields(sb.String()), " ")
-}
-
-// ---------------------------------------------------------------- exploration
-
-type abortPath struct{ why string }
-
-type explorer struct {
-	sol       *solver
-	prefix    []int // decisions to replay
-	pos       int
-	taken     []int   // decisions taken this run
-	alts      [][]int // pending prefixes
-	nvars     int
-	pc        []string // path condition terms (this run)
-	paths     int
-	violations []string
-	maxDepth  int
-	names     []string
-	known     map[string]uint64
-}
-
-var ex *explorer
-
-func (e *explorer) fresh(name string, w int, signed bool) sym {
-	e.nvars++
-	n := fmt.Sprintf("%s!%d", name, e.nvars)
-	if w == 0 {
-		e.sol.send(fmt.Sprintf("(declare-const |%s| Bool)", n))
-	} else {
-		e.sol.send(fmt.Sprintf("(declare-const |%s| (_ BitVec %d))", n, w))
-	}
-	e.names = append(e.names, "|"+n+"|")
-	return sym{t: "|" + n + "|", w: w, signed: signed}
-}
-
-func (e *explorer) assume(c sym) {
-	e.sol.send("(assert " + c.t + ")")
-	e.pc = append(e.pc, c.t)
-}
-
-// decide picks a branch for a symbolic boolean condition.
-func (e *explorer) decide(c sym) bool {
-	if e.pos < len(e.prefix) {
-		d := e.prefix[e.pos]
-		e.pos++
-		e.taken = append(e.taken, d)
-		if d == 1 {
-			e.assume(c)
-		} else {
-			e.assume(sym{t: "(not " + c.t + ")"})
-		}
-		return d == 1
-	}
-	// new node: check both sides
-	e.sol.send("(push)")
-	e.sol.send("(assert " + c.t + ")")
-	rt := e.sol.check()
-	e.sol.send("(pop)")
-	rf := "sat"
-	if rt != "unsat" {
-		e.sol.send("(push)")
-		e.sol.send("(assert (not " + c.t + "))")
-		rf = e.sol.check()
-		e.sol.send("(pop)")
-	}
-	if rt == "unknown" || rf == "unknown" {
-		panic(abortPath{"solver unknown at branch"})
-	}
-	e.pos++
-	switch {
-	case rt == "sat" && rf == "sat":
-		alt := append(append([]int{}, e.taken...), 0)
-		e.alts = append(e.alts, alt)
-		e.taken = append(e.taken, 1)
-		e.assume(c)
-		return true
-	case rt == "sat":
-		e.taken = append(e.taken, 1)
-		e.assume(c)
-		return true
-	case rf == "sat":
-		e.taken = append(e.taken, 0)
-		e.assume(sym{t: "(not " + c.t + ")"})
-		return false
-	}
-	panic(abortPath{"infeasible path"})
-}
-
-// concretize enumerates feasible values of a symbolic bitvector by forking.
-func (e *explorer) concretize(s sym) int64 {
-	// ask the solver for a model value, then fork on s==v.
-	for {
-		if e.sol.check() != "sat" {
-			panic(abortPath{"infeasible at concretize"})
-		}
-		r := e.sol.getValue(s.t)
-		i := strings.LastIndex(r, "#x")
-		var v uint64
-		if i >= 0 {
-			fmt.Sscanf(r[i+2:strings.IndexAny(r[i:], ")")+i], "%x", &v)
-		} else if i = strings.LastIndex(r, "#b"); i >= 0 {
-			fmt.Sscanf(r[i+2:strings.IndexAny(r[i:], ")")+i], "%b", &v)
-		} else {
-			panic("cannot parse model value " + r)
-		}
-		eq := sym{t: fmt.Sprintf("(= %s %s)", s.t, bvlit(v, s.w))}
-		if e.decide(eq) {
-			e.known[s.t] = v
-			if s.signed && s.w < 64 {
-				sh := uint(64 - s.w)
-				return int64(v<<sh) >> sh
-			}
-			return int64(v)
-		}
-	}
-}
 
 func bvlit(v uint64, w int) string {
 	if w%4 == 0 {
